@@ -230,29 +230,22 @@ class C17(core.Check):
                     obs=dict(sequence=[items[i]['name'] for i in order][:12], state_changed=sorted(writers)[:5]))
 
     # ------------------------------------------------------------------
-    def start_server(self, d, port, ml=False):
-        cmd = [env.PY, '-m', 'yalafi.shell', '--no-config', '--as-server', str(port), '--lt-command',
-               '%s -S %s' % (env.PY, shellrun.FAKELT), '--packages', '*,cleveref', '--replace', 'r.txt',
-               '--define', 'd.tex', '--lt-options', '~--disable SRVRULE --enablecategories SRVCAT']
-        if ml:
-            cmd += ['--multi-language', '--language', 'en-GB']
+    def start_server(self, d, ml=False):
+        """-> (server process, port) or (None, None)"""
+        def make_cmd(port):
+            cmd = [env.PY, '-m', 'yalafi.shell', '--no-config', '--as-server', str(port), '--lt-command',
+                   '%s -S %s' % (env.PY, shellrun.FAKELT), '--packages', '*,cleveref', '--replace', 'r.txt',
+                   '--define', 'd.tex', '--lt-options', '~--disable SRVRULE --enablecategories SRVCAT']
+            if ml:
+                cmd += ['--multi-language', '--language', 'en-GB']
+            return cmd
         planf = os.path.join(d, 'plan.json')
         if not os.path.exists(planf):
             with open(planf, 'w') as f:
                 json.dump({'mode': 'words', 'regex': r'w\w*z|LATEXXXERROR|\S+'}, f)
-        e = env.child_env({'YVM_LT_PLAN': planf, 'YVM_LT_LOG': os.path.join(d, 'lt%d.log' % port)})
-        srv = subprocess.Popen(cmd, cwd=d, env=e, stdout=subprocess.DEVNULL, stderr=subprocess.DEVNULL)
-        t0 = time.time()
-        while time.time() - t0 < 60:
-            try:
-                socket.create_connection(('localhost', port), timeout=1).close()
-                return srv
-            except OSError:
-                if srv.poll() is not None:
-                    break
-                time.sleep(0.1)
-        srv.kill()
-        return None
+        return shellrun.launch_server(
+            make_cmd, d, lambda port: env.child_env({'YVM_LT_PLAN': planf, 'YVM_LT_LOG': os.path.join(d, 'lt%d.log' % port)}),
+            os.path.join(d, 'server.stderr'))
 
     @staticmethod
     def lt_calls(d, port):
@@ -281,7 +274,6 @@ class C17(core.Check):
         return [(m['offset'], m['length'], m['message'].split(':', 1)[1]) for m in ms]
 
     def judge_server(self, case):
-        from .c14 import free_port
         rnd = random.Random(case['s'])
         mlsrv = case['s'] % 2 == 0       # server in multi-language mode: short foreign parts are submitted on their own
         T = [t for t in templates(rnd, 'q') if (not t[3] or mlsrv) and set(t[2]) <= {'pack', 'lang'}]
@@ -310,8 +302,7 @@ class C17(core.Check):
                                   {'disabledRules': 'REQA,REQB', 'enabledRules': 'REQE'}]) for k in range(len(items))]
             base_argv = []
             for k, (name, src, opts, ml) in enumerate(items):
-                port = free_port()
-                srv = self.start_server(d, port, mlsrv)
+                srv, port = self.start_server(d, mlsrv)
                 if srv is None:
                     return dict(ok=True, nt=False, key=None, cnt={'server_not_up': 1}, obs=None,
                                 harness_error='server did not come up')
@@ -321,8 +312,7 @@ class C17(core.Check):
                     srv.terminate()
                     srv.wait(timeout=10)
                 base_argv.append(self.lt_calls(d, port))
-            port = free_port()
-            srv = self.start_server(d, port, mlsrv)
+            srv, port = self.start_server(d, mlsrv)
             if srv is None:
                 return dict(ok=True, nt=False, key=None, cnt={'server_not_up': 1}, obs=None,
                             harness_error='server did not come up')
